@@ -16,6 +16,8 @@ use crate::util::{fnv, hex, par_fold, show, unhex};
 
 #[derive(Clone)]
 pub struct Inp {
+	/// per streaming target: the stand-alone translation of each document (filled once, see `with_refs`)
+	pub refs: Vec<Option<Vec<Vec<u8>>>>,
 	pub src: F,
 	pub bytes: Vec<u8>,
 	pub docs: Vec<V>,
@@ -64,7 +66,7 @@ pub fn alphabet(thorough: bool) -> Vec<Inp> {
 						if !thorough && detect && reader && sep != seps[0] {
 							continue;
 						}
-						a.push(Inp { src, bytes: bytes.clone(), docs: docs.clone(), fails: false, reader, detect, label: format!("{}:{label}:sep{sep}", src.name()) });
+						a.push(Inp { refs: vec![], src, bytes: bytes.clone(), docs: docs.clone(), fails: false, reader, detect, label: format!("{}:{label}:sep{sep}", src.name()) });
 					}
 				}
 			}
@@ -74,7 +76,7 @@ pub fn alphabet(thorough: bool) -> Vec<Inp> {
 	for (docs, label) in [(vec![V::map(vec![("a", V::Int(1))])], "map"), (vec![V::map(vec![("t", V::map(vec![("x", V::s("y"))]))])], "nested")] {
 		let bytes = spell_stream(F::Toml, &docs, Style(0), 0).unwrap();
 		for reader in [false, true] {
-			a.push(Inp { src: F::Toml, bytes: bytes.clone(), docs: docs.clone(), fails: false, reader, detect: false, label: format!("toml:{label}") });
+			a.push(Inp { refs: vec![], src: F::Toml, bytes: bytes.clone(), docs: docs.clone(), fails: false, reader, detect: false, label: format!("toml:{label}") });
 		}
 	}
 	// failing inputs: some complete documents, then a syntax error
@@ -83,7 +85,7 @@ pub fn alphabet(thorough: bool) -> Vec<Inp> {
 		let mut bytes = spell_stream(src, &[m.clone(), V::Int(2)], Style(0), 0).unwrap();
 		bytes.extend_from_slice(tail);
 		for reader in [false, true] {
-			a.push(Inp { src, bytes: bytes.clone(), docs: vec![m.clone(), V::Int(2)], fails: true, reader, detect: false, label: format!("{}:failing", src.name()) });
+			a.push(Inp { refs: vec![], src, bytes: bytes.clone(), docs: vec![m.clone(), V::Int(2)], fails: true, reader, detect: false, label: format!("{}:failing", src.name()) });
 		}
 	}
 	a
@@ -102,6 +104,21 @@ fn reference_for(docs: &[V], to: F) -> Option<Vec<Vec<u8>>> {
 		out.push(o.out);
 	}
 	Some(out)
+}
+
+fn with_refs(mut a: Vec<Inp>) -> Vec<Inp> {
+	for inp in &mut a {
+		inp.refs = F::STREAMING.iter().map(|&to| reference_for(&inp.docs, to)).collect();
+	}
+	a
+}
+
+fn cached_refs<'a>(inp: &'a Inp, to: F) -> Option<std::borrow::Cow<'a, Vec<Vec<u8>>>> {
+	if inp.refs.len() == F::STREAMING.len() {
+		let i = F::STREAMING.iter().position(|&t| t == to)?;
+		return inp.refs[i].as_ref().map(std::borrow::Cow::Borrowed);
+	}
+	reference_for(&inp.docs, to).map(std::borrow::Cow::Owned)
 }
 
 fn run_history(hist: &[&Inp], to: F) -> (Vec<Result<(), String>>, Vec<u8>, Option<String>) {
@@ -148,7 +165,7 @@ fn judge_history(hist: &[&Inp], to: F) -> Option<(String, String)> {
 	let mut expected_docs: Vec<V> = vec![];
 	for (i, inp) in hist.iter().enumerate() {
 		let Some(r) = results.get(i) else { break };
-		let Some(refs) = reference_for(&inp.docs, to) else { return None };
+		let Some(refs) = cached_refs(inp, to) else { return None };
 		for (d, b) in inp.docs.iter().zip(refs.iter()) {
 			expected.extend_from_slice(b);
 			expected_docs.push(d.clone());
@@ -361,7 +378,7 @@ fn cli_part(thorough: bool) -> Tally {
 pub fn run(ctx: &Ctx) -> CheckOutput {
 	let thorough = ctx.thorough();
 	// ---- (H) histories
-	let alpha = alphabet(thorough);
+	let alpha = with_refs(alphabet(thorough));
 	let depth = if thorough { 3 } else { 2 };
 	let mut hists: Vec<Vec<usize>> = vec![];
 	for i in 0..alpha.len() {
@@ -458,6 +475,7 @@ pub fn replay(case: &Value) -> Option<String> {
 		"history" => {
 			let to = F::parse(case["to"].as_str().unwrap()).unwrap();
 			let inps: Vec<Inp> = case["calls"].as_array().unwrap().iter().map(|c| Inp {
+				refs: vec![],
 				src: F::parse(c["src"].as_str().unwrap()).unwrap(),
 				bytes: unhex(c["bytes_hex"].as_str().unwrap()),
 				docs: c["docs"].as_array().unwrap().iter().map(|d| crate::model::parse_dump(d.as_str().unwrap()).unwrap()).collect(),
